@@ -13,6 +13,7 @@
  R4 dispersion     : Fiber.chromatic_dispersion is proportional to the length; composed with beta2 at the reference
                      frequency it gives back D(f_ref) * L for the three ways D is specified; freq=None = f_ref.
  Rm memo          : every memoisation construct in the functions behind this property is keyed by everything it reads.
+ Rp presence      : optional numeric fields are tested with `is None` / membership, never by truthiness (0 is a value).
 """
 import ast
 
@@ -312,4 +313,9 @@ from ..memo import rule_for as _memo_rule
 
 RULES_MEMO = ('Rm.memo', _memo_rule('C05', 'the loss or dispersion of another fibre configuration would be applied'))
 
-RULES = [('R4.cd', r4_cd), ('R1.once', r1_once), ('R2.budget', r2_budget), ('R3.accumulators', r3_accumulators), RULES_MEMO]
+
+from ..presence import rule_for as _presence_rule
+
+RULES_PRESENCE = ('Rp.presence', _presence_rule('C05', 'a fibre parameter of exactly 0 would be replaced by a default'))
+
+RULES = [('R4.cd', r4_cd), ('R1.once', r1_once), ('R2.budget', r2_budget), ('R3.accumulators', r3_accumulators), RULES_MEMO, RULES_PRESENCE]
